@@ -160,7 +160,7 @@ Proof.
       unfold tb_byPath, tb_add. simpl. rewrite !lookup_insert. simpl. rewrite ?lookup_insert. eauto. }
     destruct (negb ld && is_link k); simpl.
     + destruct (v_readlink (fs_of s) (clean name)) as [e|l]; simpl; [apply steps_refl|].
-      set (l' := if is_abs l then l else pjoin (dir (clean name)) l).
+      set (l' := clean (if is_abs l then l else pjoin (dir (clean name)) l)).
       destruct (tb_byPath (T s) l') as [?|] eqn:El; simpl.
       * apply steps_one, p_link, Eb.
       * destruct (v_lstat (fs_of s) l') as [e|k']; simpl; [apply steps_refl|]. apply Hopen; [exact Ecl|exact El].
@@ -833,8 +833,7 @@ Qed.
 
 (* Close as repaired (833aa17): when it returns no watch, no watch descriptor, no registration and no byDir bucket is
    left — in every state satisfying the invariant, whatever the filesystem, for every configuration with fx_close,
-   provided the watch names are clean.  That proviso is necessary: close_needs_clean_names_refuted
-   (KNOWN_FINDINGS key symlink-added: a watch added through a symlink is filed under the raw link target). *)
+   provided the watch names are clean (before the link targets were cleaned it was not: close_unclean_link_released). *)
 Theorem close_empties c s :
   fx_close c = true → KqInv s → closed s = false → gone s = false → names_clean s →
   let s' := api_close c s in
@@ -1003,11 +1002,12 @@ Definition w_entry_user_removed : list step := [SFs (OMkdir "d"); SFs (OCreate "
 (* key rename-then-recreate-in-burst *)
 Definition w_burst : list step := [SFs (OMkdir "d"); SFs (OCreate "d/l"); SAdd "d"; SHold; SFs (ORename "d/l" "d/c"); SFs (OCreate "d/l"); SRelease].
 
-(* close_releases_all needs [names_clean]: a watch added through a symlink with an unclean absolute target is filed under
-   the raw target, which Close (cleaning the key) does not find — the descriptor survives the repaired Close.  key symlink-added *)
-Theorem close_needs_clean_names_refuted :
+(* the witness of the defect repaired by the third fix (absolute link targets are cleaned before they become watch names):
+   a watch added through a symlink with an unclean absolute target used to be filed under the raw target, which Close
+   (cleaning the key) did not find — the descriptor survived Close.  On the repaired code it is released. *)
+Theorem close_unclean_link_released :
   let s := run cfg_repo w_unclean_link_close st_init in
-  gone s = true ∧ ledger_list s = [(1, "/T//x")] ∧ fails "close-releases-all" cfg_repo w_unclean_link_close = true.
+  gone s = true ∧ ledger_list s = [] ∧ fails "close-releases-all" cfg_repo w_unclean_link_close = false.
 Proof. vm. Qed.
 
 (* all_removed_empty in full is still false; what can be left over and why (one witness per cause):
